@@ -26,7 +26,7 @@ const (
 	fastWatchdog = 6 * time.Second  // handlers that do not wait for anything return in microseconds
 	slowWatchdog = 15 * time.Second // virtual-channel handlers wait up to 10 s for the twin proposal
 	probeTimeout = 1500 * time.Millisecond
-	syncTimeout  = 300 * time.Millisecond // syncReplyTimeout for the run (10 s in production)
+	syncTimeout  = 1500 * time.Millisecond // syncReplyTimeout for the run (10 s in production)
 )
 
 // ---------- observation of one handled message ----------
@@ -109,8 +109,8 @@ func (f *fctx) reqTerm(m client.ChannelUpdateProposal) string {
 }
 
 func (f *fctx) ctxTerm(s snap, fund, settle []icept, busy bool) string {
-	return hx.App("mkRC", hx.N(uint64(f.me)), f.snapTerm(s), hx.ListOf(fund, f.iceptTerm), hx.ListOf(settle, f.iceptTerm),
-		"false", hx.Bool(busy), "false")
+	f.lastSnap = f.snapTerm(s)
+	return hx.App("RC", hx.N(uint64(f.me)), f.lastSnap, hx.ListOf(fund, f.iceptTerm), hx.ListOf(settle, f.iceptTerm), hx.Bool(busy))
 }
 
 func (f *fctx) obsTerm(o obs, st *channel.State) string {
@@ -118,8 +118,14 @@ func (f *fctx) obsTerm(o obs, st *channel.State) string {
 	if o.accSig != nil {
 		sig = "(Some " + f.tokPlain(o.accSig, st) + ")"
 	}
+	after := f.snapTerm(o.after)
+	if after == f.lastSnap {
+		after = "None" // unchanged
+	} else {
+		after = "(Some " + after + ")"
+	}
 	return hx.App("mkObs", hx.N(uint64(o.dec)), hx.ListOf(o.sent, func(i int) string { return hx.N(uint64(i)) }),
-		hx.Bool(o.free), f.snapTerm(o.after), sig, hx.Bool(o.waited))
+		hx.Bool(o.free), after, sig, hx.Bool(o.waited))
 }
 
 // ---------- property oracles (from the property texts, independent of model and code) ----------
@@ -429,7 +435,7 @@ func (sh *shard) execUpd(tc tcase, stranger bool, doProbe bool) {
 	var o obs
 	var pv interface{}
 	t0 := time.Now()
-	o.outcome, pv = syncCall(func() { f.h.C.VerifHandleChannelUpdate(f.h, env.Sender, msg) }, wd)
+	o.outcome, pv = syncCall(func() { f.h.C.VerifHandleChannelUpdate(f.h, sender, msg) }, wd)
 	took := time.Since(t0)
 	o.waited = took > 5*time.Second
 	if pv != nil {
@@ -687,7 +693,7 @@ func (sh *shard) execSync(tc tcase) {
 		f.ch.VerifLockMachine() // a local operation of the honest client holds the machine mutex
 	}
 	var pv interface{}
-	o.outcome, pv = syncCall(func() { f.h.C.VerifHandleSyncMsg(env.Sender, msg) }, fastWatchdog)
+	o.outcome, pv = syncCall(func() { f.h.C.VerifHandleSyncMsg(sender, msg) }, fastWatchdog)
 	if tc.busy && o.outcome == "RET" {
 		// the local operation ends: its deferred Unlock
 		o.outcome, pv = syncCall(func() { f.ch.VerifUnlockMachine() }, fastWatchdog)
@@ -914,7 +920,7 @@ func run(prop string, seed int64, tier, out string) {
 	res := hx.NewResult(prop, seed, tier)
 	old := client.VerifSetSyncReplyTimeout(syncTimeout)
 	defer client.VerifSetSyncReplyTimeout(old)
-	nShards, perShard, slowShards := 16, 24, 4
+	nShards, perShard, slowShards := 16, 20, 4
 	if tier != "quick" {
 		nShards, perShard, slowShards = 64, 120, 16
 	}
